@@ -84,3 +84,24 @@ Definition C13_explicit : Prop :=
 Definition C13_full : Prop :=
   forall prefix suffix c1 c2 ini bp bs b1 b2 bi bq dir,
     C13_spec_full prefix suffix c1 c2 ini bp bs b1 b2 bi bq dir.
+
+(* ------------------------------------------------------------------ C13 in judge form *)
+(* two cases whose texts are  P ++ [I] ++ X ++ [Q] ++ S  with the same P, I, Q, S (characters with
+   their unit lengths), I of class LRI/RLI, Q of class PDI, contents B-free and isolate-balanced,
+   each text a single paragraph, the initiator valid (pushed) when reached *)
+Definition iso_pair (c1 c2 : tcase) (pu su : nat) : Prop :=
+  tc_enc c2 = tc_enc c1 /\ tc_ds c2 = tc_ds c1 /\ tc_dir c2 = tc_dir c1 /\
+  exists (P S X1 X2 : list (N * nat)) (I Q : N * nat),
+    case_chars c1 = P ++ [I] ++ X1 ++ [Q] ++ S /\
+    case_chars c2 = P ++ [I] ++ X2 ++ [Q] ++ S /\
+    pu = total (map snd (P ++ [I])) /\ su = total (map snd (Q :: S)) /\
+    let cl := fun ch : N * nat => ds_class (tc_ds c1) (fst ch) in
+    let br := fun ch : N * nat => ds_bracket (tc_ds c1) (fst ch) in
+    cl Q = PDI /\
+    c13_hyps (map cl P) (map cl S) (map cl X1) (map cl X2) (cl I)
+             (map br P) (map br S) (map br X1) (map br X2) (tc_dir c1).
+
+Definition C13_final : Prop :=
+  forall c1 c2 pu su,
+    valid_case c1 -> valid_case c2 -> iso_pair c1 c2 pu su ->
+    C13_judge pu su (model_obs false c1) (model_obs false c2) = true.
